@@ -287,6 +287,42 @@ func (a *API) ReadAll(ctx context.Context, tok int, r io.Reader) (string, error)
 	return fmt.Sprintf("%d:%08x:%s", len(got), fnv(got), obs), nil
 }
 
+// SubElem is the element type of struct-valued streams.
+type SubElem struct {
+	Tok int    `json:"tok"`
+	K   int    `json:"k"`
+	Pad string `json:"pad,omitempty"`
+}
+
+// SubT is Sub with a struct element type and variable element size.
+func (a *API) SubT(ctx context.Context, tok int) (<-chan SubElem, error) {
+	ci, err := a.Sub(ctx, tok)
+	if err != nil {
+		return nil, err
+	}
+	t := a.e.Tok(tok)
+	out := make(chan SubElem)
+	id := simrt.Spawn("subt-adapter")
+	go simrt.RunG(id, func() {
+		defer close(out)
+		for v := range ci {
+			el := SubElem{Tok: tok, K: v % 100000}
+			if t.Size > 0 {
+				el.Pad = Result(v, t.Size)
+			}
+			select {
+			case out <- el:
+			case <-ctx.Done():
+				// keep draining so that the producer is never blocked by us
+				for range ci {
+				}
+				return
+			}
+		}
+	})
+	return out, nil
+}
+
 // RevClient is the proxy the server uses to call back into a client.
 type RevClient struct {
 	Who      func(ctx context.Context, tok int) (string, error)
@@ -349,6 +385,7 @@ type Proxy struct {
 	Add       func(ctx context.Context, tok int, delta int64) (int64, error)
 	Sub       func(ctx context.Context, tok int) (<-chan int, error)
 	SubRetry  func(ctx context.Context, tok int) (<-chan int, error) `rpc_method:"T.Sub" retry:"true"`
+	SubT      func(ctx context.Context, tok int) (<-chan SubElem, error)
 	Rev       func(ctx context.Context, tok int) (string, error)
 	ReadAll   func(ctx context.Context, tok int, r io.Reader) (string, error)
 }
